@@ -22,9 +22,25 @@ pub struct C06Case {
     pub discard: bool,
     /// weights for the direct load-balancing partition check (None = no estimate on that query)
     pub lb_weights: Vec<Option<f64>>,
+    /// also run the batch through the string interface of the language bindings
+    /// (CompassAppBindings::run_queries): Some(None) = the same queries as JSON text,
+    /// Some(Some(i)) = with one text that is not valid JSON inserted at position i
+    #[serde(default)]
+    pub bindings: Option<Option<u16>>,
 }
 
 pub struct C06;
+
+/// the language-binding interface over an application that already exists
+struct Bound<'a>(&'a routee_compass::app::compass::compass_app::CompassApp);
+impl routee_compass::app::bindings::CompassAppBindings for Bound<'_> {
+    fn from_config_toml_string(_config_string: String, _original_file_path: String) -> Result<Self, routee_compass::app::compass::compass_app_error::CompassAppError> {
+        Err(routee_compass::app::compass::compass_app_error::CompassAppError::InternalError("not used".into()))
+    }
+    fn app(&self) -> &routee_compass::app::compass::compass_app::CompassApp {
+        self.0
+    }
+}
 
 fn permute<T: Clone>(v: &[T], perm: &[u16]) -> Vec<T> {
     let mut idx: Vec<usize> = (0..v.len()).collect();
@@ -98,6 +114,7 @@ impl Prop for C06 {
                     delays_us: vec![],
                     discard: false,
                     lb_weights: vec![],
+                    bindings: None,
                 });
             }
         }
@@ -114,8 +131,9 @@ impl Prop for C06 {
             proptest::collection::vec(prop_oneof![1 => Just(0u16), 2 => 0u16..300], 8),
             proptest::bool::weighted(0.3),
             proptest::collection::vec(proptest::option::weighted(0.8, prop_oneof![Just(0.0f64), Just(1.0), (0.0f64..100.0), Just(1e12)]), 0..30),
+            proptest::option::weighted(0.25, proptest::option::weighted(0.5, any::<u16>())),
         )
-            .prop_map(|(app, queries, perm, p1, p2, delays_us, discard, lb_weights)| C06Case {
+            .prop_map(|(app, queries, perm, p1, p2, delays_us, discard, lb_weights, bindings)| C06Case {
                 app,
                 queries,
                 perm,
@@ -124,6 +142,7 @@ impl Prop for C06 {
                 delays_us,
                 discard,
                 lb_weights,
+                bindings,
             })
             .boxed()
     }
@@ -285,6 +304,43 @@ impl Prop for C06 {
                 return o;
             }
         };
+        // the string interface of the language bindings: one response text per query, or the
+        // whole call is refused - never fewer responses than queries without an error
+        if let (Some(invalid_at), false) = (&c.bindings, c.discard) {
+            use routee_compass::app::bindings::CompassAppBindings;
+            o.label("through-bindings-string-interface");
+            let mut texts: Vec<String> = queries.iter().map(|q| q.to_string()).collect();
+            if let Some(i) = invalid_at {
+                o.label("bindings-invalid-json-text");
+                let at = crate::engine::pick_idx(*i, texts.len() + 1);
+                texts.insert(at, r#"{"origin_vertex": 0, "destination_vertex": NaN}"#.to_string());
+            }
+            let n_texts = texts.len();
+            let cfg = json!({"parallelism": c.p1}).to_string();
+            match Bound(&app).run_queries(texts, Some(cfg)) {
+                Err(_) => {
+                    if invalid_at.is_none() {
+                        o.fail("C06/bindings/valid-batch-refused", json!({"queries": n_texts}));
+                        return o;
+                    }
+                }
+                Ok(rs) => {
+                    let parsed: Vec<Value> = rs.iter().filter_map(|t| serde_json::from_str(t).ok()).collect();
+                    let expected: usize = exps.iter().map(|e| e.correct).sum::<usize>() + invalid_at.map(|_| 1).unwrap_or(0);
+                    if family_dropped_seen == 0 && (parsed.len() != rs.len() || rs.len() != expected) {
+                        o.fail(
+                            "C06/bindings/response-count",
+                            json!({"query_texts": n_texts, "expected_responses": expected, "responses": rs.len(), "parseable": parsed.len(), "invalid_text_inserted": invalid_at.is_some()}),
+                        );
+                        return o;
+                    }
+                    if invalid_at.is_none() && !energy && family_dropped_seen == 0 && multiset(&parsed) != multiset(&batch) {
+                        o.fail("C06/bindings/responses-differ-from-run", json!({"responses": rs.len()}));
+                        return o;
+                    }
+                }
+            }
+        }
         let (ma, mb, mc) = (multiset(&alone), multiset(&batch), multiset(&permuted));
         let diff = |x: &std::collections::BTreeMap<String, usize>, y: &std::collections::BTreeMap<String, usize>| -> Vec<String> {
             let mut d = vec![];
